@@ -34,7 +34,7 @@ PROBES = [
     "| t |\n|---|\n| u |\n\n1. x\n\n    code\n\na  \nb ~~s~~\n\n***\n",
     "*e* **s** <b>h</b>\n\n<div>\nx\n</div>\n",
 ]
-RULE_NAMES = ["table", "strikethrough", "emphasis", "link", "image", "list", "blockquote", "fence", "code", "reference", "backticks", "heading", "smartquotes", "replacements", "entity", "escape", "html_inline", "html_block", "autolink", "hr", "lheading", "newline"]
+RULE_NAMES = ["balance_pairs", "fragments_join", "table", "strikethrough", "emphasis", "link", "image", "list", "blockquote", "fence", "code", "reference", "backticks", "heading", "smartquotes", "replacements", "entity", "escape", "html_inline", "html_block", "autolink", "hr", "lheading", "newline"]
 EXC_KINDS = ["Exception", "KeyError", "IndexError", "BaseException"]
 
 
@@ -84,8 +84,26 @@ def _case(draw):
         pre = []
         for _ in range(d.i(0, 2)):
             # per-chain switches made directly on a ruler (public attribute), so that chains sharing a rule name differ
-            pre.append([d.pick(["inline", "inline2", "core"]), d.pick(["enable", "disable"]), d.pick(["emphasis", "strikethrough", "linkify"])])
-        return {"kind": "reset", "cfg": gen.config_d(d, allow_linkify=False), "pre": pre, "body": body(1), "exit": d.pick(["normal", "raise", "raise"]), "exc": d.pick(EXC_KINDS)}
+            if d.chance(0.35):
+                # a chain narrowed (possibly to nothing) directly on its ruler; the progress-guaranteeing rules stay
+                ch = d.pick(["inline2", "inline2", "inline", "block"])
+                keep = {"inline2": d.pick([[], ["balance_pairs"], ["fragments_join"]]), "inline": ["text"], "block": ["paragraph"]}[ch]
+                pre.append([ch, "enableOnly", keep])
+            else:
+                pre.append([d.pick(["inline", "inline2", "core"]), d.pick(["enable", "disable"]), d.pick(["emphasis", "strikethrough", "linkify"])])
+        b = body(1)
+        if d.chance(0.3):
+            ch = d.pick(["inline2", "inline2", "inline", "block"])
+            keep = {"inline2": d.pick([[], [], ["balance_pairs"]]), "inline": ["text"], "block": ["paragraph"]}[ch]
+            pre = pre[:1] + [[ch, "enableOnly", keep]]
+        if pre and d.chance(0.6):
+            # switch on rules of the chain that was narrowed, and use the instance, before leaving the block
+            ch = pre[-1][0]
+            names = {"inline2": ["emphasis", "strikethrough", "balance_pairs", "fragments_join"], "inline": ["emphasis", "backticks", "link", "escape"], "block": ["list", "heading", "blockquote", "fence"], "core": ["replacements", "smartquotes"]}[ch]
+            # (all of them with probability 1/2: a post-processing rule alone shows nothing without its companions)
+            chosen = list(names) if d.chance(0.7) else [d.pick(names) for _ in range(d.i(1, 2))]
+            b = [["enable", chosen], ["parse", d.pick(PROBES)]] + b
+        return {"kind": "reset", "cfg": gen.config_d(d, allow_linkify=False), "pre": pre, "body": b, "exit": d.pick(["normal", "raise", "raise"]), "exc": d.pick(EXC_KINDS)}
     k = d.i(0, 9)
     if k < 5:
         src = d.pick(PROBES) if d.chance(0.3) else gen.block_doc_d(d, tabs=False, maxdepth=2, perturbed=False)
@@ -241,7 +259,7 @@ def check_reset(case, res: Res) -> None:
     for m in (md, control):
         for chain, kind, name in case.get("pre") or []:
             ruler = m.inline.ruler2 if chain == "inline2" else m[chain].ruler
-            getattr(ruler, kind)([name], True)
+            getattr(ruler, kind)(list(name) if isinstance(name, list) else [name], True)
     entry_state = snapshot(md)
     raised_exit = [False]
 
